@@ -183,6 +183,69 @@ def rand_manifest(rnd):
             return streams
 
 
+def bake_hints(streams, mode):
+    """Block ids become locators 10000*h+c (Manifest.tla): mode 0 no hints, 1 every block signed (+A),
+    2 the k-th block of the manifest gets hint class k % 4 (none, +A, +R, +Z+A+K)."""
+    k = 0
+    for s in streams:
+        for j, b in enumerate(s["blocks"]):
+            h = 0 if mode == 0 else 1 if mode == 1 else k % 4
+            s["blocks"][j] = 10000 * h + b % 10000
+            k += 1
+
+
+def ref_bytes(streams, path):
+    """Reference reading of one path (Manifest!Bytes), used ONLY to decide whether a rejected event has the exact
+    shape of known finding KF-C10-3; never to produce a verdict."""
+    out = []
+    for s in streams:
+        for t in s["toks"]:
+            if path_of(s, t) != path:
+                continue
+            off = 0
+            for b in s["blocks"]:
+                lo, hi = max(t["pos"], off), min(t["pos"] + t["len"], off + b % 100)
+                out += [(b % 10000, j - off) for j in range(lo, hi)]
+                off += b % 100
+    return out
+
+
+def zseg_offsets(streams, path):
+    """File offsets at which loadManifest leaves a zero-length segment (ManifestCodecs!ZSeg tokens of this path)."""
+    offs, n = set(), 0
+    for s in streams:
+        for t in s["toks"]:
+            if path_of(s, t) == path:
+                if zseg(s, t):
+                    offs.add(n)
+                n += t["len"]
+    return offs
+
+
+def flatten(segs):
+    return [(x[0] % 10000, x[1] + j) for x in segs for j in range(x[2])]
+
+
+def zseg_exact(streams, ev):
+    """KF-C10-3, exactly: every observation of the file is right except positioned reads ('chunk'), and each wrong
+    chunk is the expected data cut short at a file offset where a zero-length segment sits."""
+    path = tuple(ev["path"])
+    want = ref_bytes(streams, path)
+    zo = zseg_offsets(streams, path)
+    wrong = 0
+    for o in ev.get("obs", []):
+        got = flatten(o["segs"])
+        exp = want if o["n"] == -1 else want[o["start"]:o["start"] + o["n"]]
+        if o["n"] != -1 and o["start"] + o["n"] > len(want):
+            return False
+        if got == exp:
+            continue
+        wrong += 1
+        if o.get("via") != "chunk" or got != exp[:len(got)] or (o["start"] + len(got)) not in zo:
+            return False
+    return wrong > 0 and ev.get("kind") == "ok"
+
+
 MUTATIONS = ["past_end", "no_newline", "no_locators", "no_files", "bad_pos", "bad_size", "two_fields", "no_stream_name"]
 
 
@@ -227,6 +290,7 @@ def annotate(events, by_id):
             ev["kf_zstart"] = tuple(ev["path"]) in cur["_zp"]
             ev["kf_zspan"] = tuple(ev["path"]) in cur["_zs"]
             ev["kf_zseg"] = tuple(ev["path"]) in cur["_zg"]
+            ev["kf_zseg_exact"] = ev["kf_zseg"] and cur.get("mut", "") == "" and zseg_exact(cur["streams"], ev)
         elif ev["ev"] == "out":
             src = tuple(ev["src"])
             ev["kf_bsoct"] = any(p == src or p[:len(src) + 1] == src + (SL,) for p in cur["_bs"])
@@ -391,6 +455,7 @@ def run(ctx):
     for i, s in enumerate(scns):
         s["id"] = i + 1
         s["hints"] = i % 3
+        bake_hints(s["streams"], s["hints"])
         s["rseed"] = ctx.seed * 1000003 + i
         s["mut"] = ""
         s["mutarg"] = 0
@@ -405,7 +470,7 @@ def run(ctx):
     base = [s for s in scns if s["kind"] != "align"] + scns[:200]
     for i in range(nmut):
         b = rnd.choice(base)
-        scns.append({"id": len(scns) + 1, "kind": "mutation", "streams": b["streams"], "hints": b["hints"],
+        scns.append({"id": len(scns) + 1, "kind": "mutation", "streams": b["streams"], "hints": b["hints"],   # (ids already carry hints)
                      "rseed": 0, "mut": MUTATIONS[i % len(MUTATIONS)], "mutarg": rnd.randint(0, 10 ** 6), "extracts": []})
     by_id = {s["id"]: s for s in scns}
     ctx.log("scenarios: %d align, %d names, %d random, %d mutations" % (len(align), len(names), nrand, nmut))
@@ -454,7 +519,7 @@ def run(ctx):
                         "crypto/md5 for the PDH reference"]
     ctx.assumptions = ["manifest text never contains two consecutive backslashes (format silent, codecs differ)",
                        "no path is both file and directory; no '.'/'..' components; no '0:0:.' placeholders",
-                       "sizes < 32 bytes per block, at most 7 distinct non-empty blocks per manifest",
+                       "sizes < 32 bytes per block, at most 7 distinct non-empty blocks per manifest; four hint shapes (none, +A, +R, +Z+A+K)",
                        "'no panic on arbitrary byte strings' is covered only for single-token mutations of generated manifests"]
     ctx.exhaustive = False
 
